@@ -35,6 +35,11 @@ func cfgS6(prop string, seed uint64, tier string) *RunCfg {
 	for i := 0; i < n; i++ {
 		c.Txns = append(c.Txns, TxnSpec{Actor: "x", GenSeed: r.Uint64(), Profile: []string{"valid-sw", "mixed", "named", "refs"}[r.Intn(4)], Kind: "corrupt"})
 	}
+	if r.Intn(3) == 0 {
+		// client-side half: a corrupting stub server against a real client
+		c.Scenario = "S6C"
+		c.YieldPermil = []int{0, 30, 150}[r.Intn(3)]
+	}
 	return c
 }
 
@@ -205,7 +210,15 @@ func runS6(e *Env, cfg *RunCfg) {
 					e.Abort("server never answers (" + key + "): C04's concern")
 					return
 				}
-				e.ViolateK("C19.no-answer", what, "corrupted request %d (%s) is never answered\nrequest: %s\n%s", i, what, trimStr(string(mustJSON(params)), 1500), trimStr(st, 3000))
+				key := what
+				for _, b := range bad {
+					if op, ok := b.(map[string]any); ok && op["op"] == "wait" {
+						if _, isNum := op["timeout"].(float64); !isNum {
+							key = "wait-without-timeout" // absent, null or not a number: waits for ever by definition
+						}
+					}
+				}
+				e.ViolateK("C19.no-answer", key, "corrupted request %d (%s) is never answered\nrequest: %s\n%s", i, what, trimStr(string(mustJSON(params)), 1500), trimStr(st, 3000))
 			}
 			return
 		}
